@@ -348,7 +348,7 @@ struct FDrv {
     // recorded: the lane semantics assume FTZ = DAZ = 0) and only the environment facts are emitted.
     void fenv() {
         std::vector<S> vals = fp_lattice<S>(0);
-        for (unsigned preset = 1; preset < 4; ++preset) {
+        for (unsigned preset = 0; preset < 4; ++preset) {      // 0: as found (the verdict on environment facts is given here)
             const unsigned keep = _mm_getcsr();
             _mm_setcsr(keep | ((preset & 1) ? 0x8000u : 0u) | ((preset & 2) ? 0x0040u : 0u));
             const std::string tag = std::string("@ftz") + ((preset & 1) ? "1" : "0") + "daz" + ((preset & 2) ? "1" : "0");
